@@ -710,11 +710,13 @@ impl Monitor for C04 {
             ("verdict:accepting-line".into(), 5_000),
             ("verdict:rejecting-near-miss".into(), 5_000),
             ("regex:alt-top".into(), 500),
+            ("regex:anchor-start".into(), 150),
+            ("regex:anchor-end".into(), 150),
         ];
         p.assumptions = vec![
             "glob / regex are judged on valid UTF-8 lines only (lossy decoding of invalid bytes is unspecified: no-panic clause only)".into(),
             "not generated as specified cases: unescaped literal braces, [[]], \\_ (Cram compatibility rewrites), empty groups / alternatives, escaped expressions ending in ` (no-eol)`, glob expressions ending in an escape marker, undocumented escapes (\\q), \\x0a".into(),
-            "regex dialect subset: literals, ., classes, groups, alternation, * + ? {m} {m,n} {m,}; no flags, no perl classes".into(),
+            "regex dialect subset: literals, ., classes, groups, alternation, * + ? {m} {m,n} {m,}, explicit ^ and $ (read as assertions inside a whole-line match); no flags, no perl classes".into(),
         ];
         p
     }
